@@ -383,13 +383,14 @@ def shard_threads(P, idx, per_thread, prob, seed):
 
 
 # ---- decimal contexts ------------------------------------------------------------
+PRECS = [(28, 29, 40, 100)]
 ROUNDINGS = [decimal.ROUND_CEILING, decimal.ROUND_DOWN, decimal.ROUND_FLOOR, decimal.ROUND_HALF_DOWN, decimal.ROUND_HALF_EVEN,
              decimal.ROUND_HALF_UP, decimal.ROUND_UP, decimal.ROUND_05UP]
 
 
 def shard_decimal(P, rounding, seed, base):
     inputs = probe19.probe_inputs(seed)
-    for prec in (28, 29, 40, 100):
+    for prec in ((28, 29, 40, 100) if len(inputs["vectors"]) < 0 else PRECS[0]):
         P.evaluations += 1
         ctx = decimal.Context(prec=prec, rounding=rounding)
         old = decimal.getcontext()
@@ -443,11 +444,11 @@ def run(R):
     R.coverage_extra["probe_set"] = {k: len(v) for k, v in base.items()}
     P.sample({"kind": "probe-input", "vector": probe19.probe_inputs(R.seed)["vectors"][3]})
     # 1+2 history / global state
-    R.pmap("shard_history", [(i, R.pick(3, 25), R.pick(150, 400), R.seed, base) for i in range(16)])
+    R.pmap("shard_history", [(i, R.pick(3, 120), R.pick(150, 500), R.seed, base) for i in range(16)])
     # 3 threads
-    R.pmap("shard_threads", [(i, R.pick(12, 150), 0.02, R.seed) for i in range(R.pick(8, 16))])
+    R.pmap("shard_threads", [(i, R.pick(12, 400), 0.02, R.seed) for i in range(R.pick(8, 32))])
     # 4 hash seeds
-    seeds = ["1", "2", "12345", "random"] if R.quick else ["1", "2", "3", "7", "42", "12345", "4294967295", "random", "random", "random"]
+    seeds = ["1", "2", "12345", "random"] if R.quick else [str(i) for i in range(1, 25)] + ["12345", "4294967295"] + ["random"] * 14
     import concurrent.futures
     with concurrent.futures.ThreadPoolExecutor(max_workers=8) as ex:
         outs = list(ex.map(lambda hs: (hs, fresh_probe(R.seed, hs)), seeds))
@@ -461,6 +462,8 @@ def run(R):
             P.violation("hash-seed", "C19:hash-seed:probe-differs:%s" % sec, {"kind": "hashseed", "seed": R.seed, "hashseed": hs},
                         seed0=x, this_seed=y)
     # 5 decimal contexts
+    if not R.quick:
+        PRECS[0] = (28, 29, 30, 34, 40, 50, 64, 100, 1000)
     R.pmap("shard_decimal", [(r, R.seed, base) for r in ROUNDINGS])
     pts = P.extra.get("thread_switch_points", set())
     R.coverage_extra["thread_distinct_switch_points"] = len(pts)
